@@ -1116,6 +1116,16 @@ def _(g: Gen) -> tuple:
     return ops.group_by_until(kf, ef, df), "group_by_until(%s,%s,%s)" % (kk, ek, dd)
 
 
+@entry("group_by_until_derived", "cold_ok nested uses_callbacks")
+def _(g: Gen) -> tuple:
+    # the duration of a group is derived from the group itself (expire after m elements / never): the idiom behind
+    # "close a group that has been idle", which makes the duration subscription a subscriber of the group
+    kf, kk = _key(g)
+    m = g.r.choice([1, 2, 3, None])
+    df = g.fn("duration_mapper", (lambda grp: grp.pipe(ops.ignore_elements())) if m is None else (lambda grp: grp.pipe(ops.skip(m - 1))))
+    return ops.group_by_until(kf, None, df), "group_by_until(%s,None,group->%s)" % (kk, "ignore_elements" if m is None else "skip(%d)" % (m - 1))
+
+
 @entry("join", "cold_ok aux inner uses_callbacks")
 def _(g: Gen) -> tuple:
     right = g.src("right")
